@@ -336,6 +336,12 @@ func ZZHarnessC10Duties() {
 		// duties at every slot of a sync-committee period / several proposals in one epoch: a third and fourth duty
 		s3 := s2 + zzNondetRange("gap2", 1, 3)
 		slots = append(slots, s3, s3+1)
+	default:
+		// one duty per epoch, epoch after epoch (or with epochs in between): a third and a fourth epoch
+		s3 := s2 + zzNondetRange("gap2", 1, 64)
+		s4 := s3 + zzNondetRange("gap3", 1, 64)
+		zzAssume(s3/32 > s2/32 && s4/32 > s3/32)
+		slots = append(slots, s3, s4)
 	}
 	var lastRecv int64
 	for d, slot := range slots {
